@@ -32,7 +32,20 @@ USER_FUNCS = {
                       py=lambda x: (x + 1, 2 * x)),
     "<func>rhs": dict(kind="ode", utype="y", template="\n${result} = 2*${y} + ${t}\n",
                       py=lambda t, y: 2 * y + t),
+    # right-hand sides of two more components, of other user types (other extents)
+    "<func>rhsz": dict(kind="ode", utype="z", template="\n${result} = 3*${z} - ${t}\n",
+                       py=lambda t, z: 3 * z - t),
+    "<func>rhsw": dict(kind="ode", utype="w", template="\n${result} = ${t} - ${w}\n",
+                       py=lambda t, w: t - w),
 }
+
+# the user types of generated programs: one-dimensional real*8 arrays of different extents
+UTYPE_SIZES = {"y": 3, "z": 5, "w": 2}
+
+
+def fmt_float(x):
+    """canonical text of a finite non-integral number (both sides of a comparison use it)"""
+    return "f:%.9e" % x
 
 
 def registry(names):
@@ -209,8 +222,10 @@ def _num(tok):
         x = float(tok)
     except ValueError:
         return tok
-    if x != x or x in (float("inf"), float("-inf")) or x != int(x) or abs(x) >= 2 ** 53:
+    if x != x or x in (float("inf"), float("-inf")) or abs(x) >= 2 ** 53:
         return tok.strip()
+    if x != int(x):
+        return fmt_float(x)
     return int(x)
 
 
